@@ -426,6 +426,40 @@ theorem shannon_sum_any_shape (rows rows' : List (List ℝ)) :
   rw [shannonSumNested, shannon_sum_def, List.map_flatten, List.sum_flatten, List.map_map]
   rfl
 
+/-! ### equivalent entry points and argument forms (R8) -/
+
+/-- **equivalent ways to say the same thing give the same SINR**:
+    * the external-interference class with `pe = 0` reports what the plain class reports (the external
+      covariance `0 · H_e H_eᴴ` is the zero matrix: a wrapper that forgot to forward `pe` would differ);
+    * handing the solver its filters as `W` (columns) or as `W_H` (rows, conjugated) is the same filter;
+    * the solver given `(F, P)` and the solver given `full_F = F √P` see the same precoders. -/
+theorem equivalent_forms_agree (G : (j : Fin K) → Mat ℂ n (T j)) (V : (j : Fin K) → Mat ℂ (T j) (S j))
+    (k : Fin K) (Uk : Mat ℂ n (S k)) (He : Mat ℂ n e) (noise : Option ℝ) (l : Fin (S k))
+    (F : (j : Fin K) → Mat ℂ (T j) (S j)) (P : Fin K → ℝ) (Rn : Mat ℂ n n) :
+    (chSinr G V k Uk (extRek He 0 noise) l : Except PyErr ℝ) = chSinr G V k Uk (baseRek n noise) l ∧
+    (solSinr G V k (cT Uk) Rn l : Except PyErr ℝ) = chSinr G V k Uk Rn l ∧
+    (∀ V', V' = fullF F P → (solSinr G (fullF F P) k (cT Uk) Rn l : Except PyErr ℝ) = solSinr G V' k (cT Uk) Rn l) := by
+  refine ⟨?_, ?_, fun V' h => by rw [h]⟩
+  · have hR : (extRek He 0 noise : Mat ℂ n n) = baseRek n noise := by
+      apply toM_inj
+      cases noise with
+      | none => simp only [extRek, baseRek, toM_extCov, toM_noiseCov, Complex.ofReal_zero, zero_smul]
+      | some v => simp only [extRek, baseRek, toM_madd, toM_extCov, Complex.ofReal_zero, zero_smul, zero_add]
+    rw [hR]
+  · rw [solSinr_eq_chSinr G V k (cT Uk) Rn Rn rfl l, cT_cT]
+
+/-- **R11 asking changes nothing**: a call that only asks (in the model: a step that returns the inputs it
+    was given) leaves the inputs where they were, so a history with such calls interleaved anywhere leads
+    to the same inputs — and the same reports — as the history without them. -/
+theorem queries_leave_no_trace {ι β : Type} (report : ι → β) (i0 : ι) (h1 h2 : List (ι → Except PyErr ι)) :
+    afterCalls i0 (h1 ++ (fun i => .ok i) :: h2) = afterCalls i0 (h1 ++ h2) ∧
+    reportAfter report (afterCalls i0 (h1 ++ (fun i => .ok i) :: h2)) [] =
+      reportAfter report (afterCalls i0 (h1 ++ h2)) [] := by
+  have h : afterCalls i0 (h1 ++ (fun i => .ok i) :: h2) = afterCalls i0 (h1 ++ h2) := by
+    rw [afterCalls_append, afterCalls_append]
+    rfl
+  exact ⟨h, by rw [h]⟩
+
 /-! ### robustness classes, as far as they are facts about the model -/
 
 /-- **R4 refused calls leave no trace; R3 reports are values; R7 only the current inputs count.**
